@@ -119,6 +119,11 @@ def gen_case(rng, tier, pid, n):
         espell = ("e-",)
         forced = forced + [s for s in pool if s.name in ("H", "H+", "C", "C+")]
         nsp, nre = max(nsp, 5), max(nre, 8)
+    elif pid == "C04" and n == 6:
+        # a project that lists its elements - the representative metal `M` among them - and declares no pseudo-elements at all
+        config = "no-pseudo-list"
+        forced = forced + [netgen.mk([("M", 1)]), netgen.mk([("M", 1)], 1)] + [s for s in pool if s.name in ("H", "H+")]
+        nsp, nre = max(nsp, 5), max(nre, 8)
     elif n > 1 and rng.random() < 0.15:
         config = "isotopes"
         iso = [netgen.mk([("13C", 1)]), netgen.mk([("13C", 1), ("O", 1)]), netgen.mk([("13C", 1), ("O", 1)], ice=True),
@@ -130,6 +135,8 @@ def gen_case(rng, tier, pid, n):
                                        forced=forced, third_body=(config == "default"))
     if pid == "C04":
         reacs = balanced_reactions(rng, sub, nre)
+    if config == "no-pseudo-list":
+        reacs = [r for r in reacs if not r.pseudo_re and not r.pseudo_pr]
     used = {s.key for r in reacs for s in r.re + r.pr}
     required = [s for s in sub if s.key not in used and rng.random() < 0.5]
     if used and rng.random() < 0.3:     # declaring a species that also reacts is legal and changes nothing
@@ -171,6 +178,11 @@ def gen_case(rng, tier, pid, n):
         for r in reacs:
             r.idx += 1000 * rng.randint(1, 9)          # database-style indices, far away from the positions
         ratemod[rng.choice(reacs).idx] = rng.choice(["0.0", "1.0e-10"])
+    if pid in ("C01", "C02", "C13") and reacs and (n == 6 or rng.random() < 0.15):
+        # a process whose tabulated coefficients are all zero (a placeholder line of a database): its rate statement is `0.0`, its
+        # terms belong to the equations like any other's - a user's rate modifier may switch it on
+        z = rng.choice(reacs)
+        z.alpha = z.beta = z.gamma = 0.0
     zero_based = pid == "C13" and reacs and indexed and (n == 5 or rng.random() < 0.2)
     if zero_based:
         # reactions numbered from 0 (a list index used as the reaction number): 0 is a number like any other
@@ -304,6 +316,8 @@ def config_lists(config="default"):
         return list(DEFAULT_ELEMENTS) + ["M"], [p for p in DEFAULT_PSEUDO if p != "M"]
     if config == "isotopes":      # an isotope as an element of its own: a symbol that starts with digits
         return list(DEFAULT_ELEMENTS) + ["13C"], list(DEFAULT_PSEUDO)
+    if config == "no-pseudo-list":
+        return list(DEFAULT_ELEMENTS) + ["M"], []
     if config == "electron-pseudo":     # a user table that lists the electron symbol among the pseudo-elements (the electron is told by its name)
         return [e for e in DEFAULT_ELEMENTS if e not in ("e", "E")], list(DEFAULT_PSEUDO) + ["e", "E"]
     return list(DEFAULT_ELEMENTS), list(DEFAULT_PSEUDO)
@@ -662,6 +676,9 @@ def run(pid: str, argv):
                     break
         if pid == "C03" and case["reacs"] and len(compiled_jobs) < {"quick": 4, "thorough": 24}[tier]:
             compiled_jobs += [(case, b, rds[b].path) for b in ("dense", "sparse") if b in rds]
+        # (C02: the matrix the solver object hands to the integrator - after Init and after Reset - is the one Jac() fills)
+        if pid == "C02" and case["reacs"] and "sparse" in rds and len(compiled_jobs) < {"quick": 2, "thorough": 12}[tier]:
+            compiled_jobs.append((case, "sparse", rds["sparse"].path))
         for b, rd in rds.items():
             chk.count(case_sig(case, b), nontrivial=bool(case["reacs"]))
             try:
@@ -1221,6 +1238,16 @@ def reused_loader_check(chk, case, net, n):
                 if b == "sparse":
                     net.add_reaction(Reaction([held[0], extra], [held[-1], extra, extra], alpha=2.5e-10, reaction_type=RT.GAS_TWOBODY,
                                               idxfromfile=987654))
+                else:
+                    # second flavour: the project directory itself is rendered again after the network got a reaction among species
+                    # it already has (file sizes tend to stay, contents do not: NREACTIONS 3 -> 4, NNZ 10 -> 14)
+                    (scratch / f"{b}-again").mkdir(parents=True, exist_ok=True)
+                    tl.render("proj", net, path=scratch / f"{b}-again", jac_pattern=True)
+                    for k_ in range(1, 4):
+                        net.add_reaction(Reaction([held[0], held[k_ % len(held)]], [held[-1], held[(k_ + 1) % len(held)]], alpha=1.5e-10,
+                                                  reaction_type=RT.GAS_TWOBODY, idxfromfile=987654 + k_))
+                        if k_ < 3:
+                            tl.render("proj", net, path=scratch / f"{b}-again", jac_pattern=True)
                 (scratch / f"{b}-again").mkdir(parents=True, exist_ok=True)
                 tl.render("proj", net, path=scratch / f"{b}-again", jac_pattern=True)
                 render(net, b, scratch / f"{b}-fresh", jac_pattern=True)
